@@ -2,7 +2,7 @@
 
 use crate::dispatch_d;
 use crate::driver::ctx::{hash_of, CaseLog, Ctx, Tier, Violation};
-use crate::gen::history::{op_strategy, start_strategy, start_world, Op, OpMix, Outcome, Start, World};
+use crate::gen::history::{op_strategy, start_strategy, start_world, Op, OpMix, Outcome, Start};
 use crate::gen::points::uuid_for;
 use crate::gen::world::{guarantee_of, mk_vertex};
 use crate::oracle::fingerprint::{diff, fingerprint};
@@ -30,7 +30,14 @@ pub struct Case {
     pub follow_remove: u16,
     /// which corruption families to enumerate on this document
     pub corrupt: bool,
+    /// (start point selector, axis, index into TINY): coordinates replaced by signed zeros, subnormals and
+    /// the smallest normal numbers before construction (geometrically all "0", textually not)
+    #[serde(default)]
+    pub tiny: Vec<(u16, u8, u8)>,
 }
+
+/// Values that are zero for every predicate but exercise the float formatting / parsing paths.
+pub const TINY: [f64; 10] = [-0.0, 5e-324, -5e-324, f64::MIN_POSITIVE / 4.0, -f64::MIN_POSITIVE / 4.0, 2.225073858507201e-308, f64::MIN_POSITIVE, -f64::MIN_POSITIVE, 1.0e-300, 4.450147717014403e-308];
 
 type K = FastKernel<f64>;
 type TdsD<const D: usize> = Tds<f64, i32, i32, D>;
@@ -224,7 +231,14 @@ fn corruptions(doc: &Value, salt: u64) -> Vec<(String, Value)> {
 fn run<const D: usize>(case: &Case, log: &mut CaseLog) {
     log.class(format!("D{D}"));
     // 1. reach a state through the API (vertex data i32, removals leave vacated slots)
-    let Some(mut w) = start_world::<K, D>(&case.start, case.salt) else {
+    let mut start = case.start.clone();
+    for (sel, axis, t) in &case.tiny {
+        if !start.points.is_empty() {
+            let i = crate::gen::world::pick(*sel, start.points.len());
+            start.points[i][*axis as usize % D] = TINY[*t as usize % TINY.len()];
+        }
+    }
+    let Some(mut w) = start_world::<K, D>(&start, case.salt) else {
         log.class("start:construction_err");
         return;
     };
@@ -239,6 +253,12 @@ fn run<const D: usize>(case: &Case, log: &mut CaseLog) {
             removed += 1;
         }
         before = w.snap();
+    }
+    if before.verts.iter().any(|v| v.coords.iter().any(|c| *c != 0.0 && c.abs() < f64::MIN_POSITIVE)) {
+        log.class("state_has_subnormal_coordinate");
+    }
+    if before.verts.iter().any(|v| v.coords.iter().any(|c| *c == 0.0 && c.is_sign_negative())) {
+        log.class("state_has_negative_zero");
     }
     let g = guarantee_of(w.dt.topology_guarantee());
     // A reachable state that is itself structurally inconsistent (remove_vertex can leave such states,
@@ -324,6 +344,37 @@ fn run<const D: usize>(case: &Case, log: &mut CaseLog) {
                         }
                         if b2.tds() != dt.tds() {
                             log.violate(mk("roundtrip_not_equal", "DelaunayTriangulation round trip: tds() != original tds()".into()));
+                        }
+                        // "remains fully usable": on the loaded DelaunayTriangulation itself a coordinate
+                        // duplicate of a live vertex is still refused and every accepted insertion leaves
+                        // the independent L1-L3 levels intact (the invariant of C02/C09, here on a loaded value)
+                        let mut b2 = b2;
+                        if let Some(v0) = Snap::of(b2.tds()).verts.first().cloned() {
+                            log.evals += 1;
+                            let n0 = Snap::of(b2.tds()).verts.len();
+                            // 5e-11 along the first axis: decidably inside the documented 1e-10 duplicate
+                            // tolerance (the exact position itself is refused by the geometry in any case)
+                            let mut near = v0.coords.clone();
+                            near[0] += 5e-11;
+                            if (near[0] - v0.coords[0]).abs() < 9e-11 {
+                                let _ = b2.insert(mk_vertex::<(), D>(&near, uuid_for(case.salt ^ 0xd8, 0), None));
+                                let n1 = Snap::of(b2.tds()).verts.len();
+                                if n1 != n0 {
+                                    log.violate(mk("loaded_dt_accepts_duplicate", format!("after loading, inserting {near:?}, within the 1e-10 duplicate tolerance of the live vertex {:?}, changed the vertex count {n0} -> {n1}", v0.coords)));
+                                }
+                            }
+                        }
+                        for (i, p) in case.follow_inserts.iter().enumerate() {
+                            let c: Vec<f64> = (0..D).map(|j| *p.get(j).unwrap_or(&0) as f64 / 4.0 + (i as f64 + 1.0) / 64.0 + (j as f64) / 128.0).collect();
+                            log.evals += 1;
+                            if b2.insert(mk_vertex::<(), D>(&c, uuid_for(case.salt ^ 0xd9, i), None)).is_ok() {
+                                let s2 = Snap::of(b2.tds());
+                                let rep = check(&s2, Opts::euclid(guarantee_of(b2.topology_guarantee()), false));
+                                if let Some(first) = rep.issues.iter().find(|i| i.level <= 3) {
+                                    log.violate(mk("loaded_dt_insert_breaks_levels", format!("after loading, a successful insert left L{} {}: {}", first.level, first.kind, first.detail)));
+                                    break;
+                                }
+                            }
                         }
                     }
                     Err(e) => log.violate(mk("roundtrip_rejected", format!("DelaunayTriangulation round trip failed: {e}"))),
@@ -417,8 +468,9 @@ pub fn strategy(dim: usize, max_ops: usize) -> BoxedStrategy<Case> {
         proptest::collection::vec(proptest::collection::vec(-40i16..=40, dim), 0..3),
         any::<u16>(),
         prop_oneof![2 => Just(true), 1 => Just(false)],
+        prop_oneof![2 => Just(Vec::new()), 1 => proptest::collection::vec((any::<u16>(), 0u8..5, 0u8..10), 1..4)],
     )
-        .prop_map(move |(salt, start, ops, cell_data, follow_inserts, follow_remove, corrupt)| Case { dim, salt, start, ops, cell_data, follow_inserts, follow_remove, corrupt })
+        .prop_map(move |(salt, start, ops, cell_data, follow_inserts, follow_remove, corrupt, tiny)| Case { dim, salt, start, ops, cell_data, follow_inserts, follow_remove, corrupt, tiny })
         .boxed()
 }
 
@@ -516,7 +568,67 @@ pub fn emit_corpus(dir: &str) -> i32 {
     if n > 0 { 0 } else { 2 }
 }
 
+/// Vertex-level round trip over arbitrary finite bit patterns (every exponent incl. subnormals, both signs).
+#[derive(Debug, Clone, Serialize, Deserialize)]
+pub struct VertexCase {
+    pub dim: usize,
+    pub bits: Vec<u64>,
+    pub salt: u64,
+    pub data: Option<i32>,
+}
+
+fn vertex_rt<const D: usize>(c: &VertexCase, log: &mut CaseLog) {
+    use delaunay::core::vertex::Vertex;
+    let coords: Vec<f64> = c.bits.iter().map(|b| f64::from_bits(*b)).collect();
+    if coords.len() != D || coords.iter().any(|x| !x.is_finite()) {
+        return;
+    }
+    log.evals += 1;
+    let v = mk_vertex::<i32, D>(&coords, uuid_for(c.salt, 0), c.data.map(i64::from));
+    let text = match serde_json::to_string(&v) {
+        Ok(t) => t,
+        Err(e) => {
+            log.violate(Violation::new(ID, "serialize_error", "vertex", format!("serialising a finite vertex failed: {e}")));
+            return;
+        }
+    };
+    match serde_json::from_str::<Vertex<f64, i32, D>>(&text) {
+        Ok(b) => {
+            let bc: Vec<u64> = b.point().coords().iter().map(|x| x.to_bits()).collect();
+            if bc != c.bits || b.uuid() != v.uuid() || b.data != v.data {
+                log.violate(Violation::new(ID, "roundtrip_differs", "vertex", format!("vertex round trip changed the vertex: coordinate bits {:x?} -> {:x?}, uuid {} -> {}, data {:?} -> {:?} (document {text})", c.bits, bc, v.uuid(), b.uuid(), v.data, b.data)).fact("dim", D as u64));
+            }
+        }
+        Err(e) => log.violate(Violation::new(ID, "roundtrip_rejected", "vertex", format!("a finite vertex with coordinates {coords:?} serialises to {text}, which is rejected on load: {e}")).fact("dim", D as u64)),
+    }
+    if coords.iter().any(|x| *x != 0.0 && x.abs() < f64::MIN_POSITIVE) {
+        log.class("vertex:subnormal");
+    }
+    log.nontrivial_hash(hash_of(&format!("{:?}", c.bits)));
+}
+
+pub fn exec_vertex(c: &VertexCase, log: &mut CaseLog) {
+    match c.dim {
+        2 => vertex_rt::<2>(c, log),
+        3 => vertex_rt::<3>(c, log),
+        4 => vertex_rt::<4>(c, log),
+        5 => vertex_rt::<5>(c, log),
+        _ => {}
+    }
+}
+
+pub fn vertex_strategy() -> BoxedStrategy<VertexCase> {
+    // sign, biased exponent 0..=2046 (0 = zero / subnormal), mantissa: uniform over the float classes that matter
+    let coord = (any::<bool>(), prop_oneof![2 => Just(0u64), 1 => Just(1u64), 1 => Just(2046u64), 6 => 0u64..=2046], prop_oneof![1 => Just(0u64), 1 => Just(1u64), 1 => Just((1u64 << 52) - 1), 6 => 0u64..(1u64 << 52)])
+        .prop_map(|(s, e, m)| ((s as u64) << 63) | (e << 52) | m);
+    (2usize..=5).prop_flat_map(move |dim| (proptest::collection::vec(coord.clone(), dim), any::<u64>(), proptest::option::of(any::<i32>())).prop_map(move |(bits, salt, data)| VertexCase { dim, bits, salt, data })).boxed()
+}
+
 pub fn run_shard(ctx: &mut Ctx) {
+    {
+        let n = ctx.share(if ctx.tier == Tier::Thorough { 400_000 } else { 20_000 });
+        ctx.run_cases("vertex_roundtrip", n, vertex_strategy(), &|c, l| exec_vertex(c, l));
+    }
     let thorough = ctx.tier == Tier::Thorough;
     let max_ops = if thorough { 16 } else { 6 };
     for dim in 2..=5usize {
@@ -536,6 +648,10 @@ pub fn run_shard(ctx: &mut Ctx) {
 }
 
 pub fn replay(label: &str, case: &Value, ctx: &mut Ctx) -> Option<Violation> {
+    if label == "vertex_roundtrip" {
+        let c: VertexCase = serde_json::from_value(case.clone()).ok()?;
+        return ctx.run_one("replay", &c, &|c, l| exec_vertex(c, l));
+    }
     if label == "raw_document" {
         let c: RawDoc = serde_json::from_value(case.clone()).ok()?;
         return ctx.run_one("replay", &c, &|c, l| exec_raw(c, l));
